@@ -184,5 +184,72 @@ func runC11(res *lib.Result, tier string, seed int64, args []string) error {
 		}
 		sess.Close()
 	}
+	if err := c11Globals(res, tier, root); err != nil {
+		return err
+	}
+	return nil
+}
+
+// second family: renaming a global from any of its occurrences, in the defining file or in another
+// file, must edit EVERY occurrence in both files (definition, re-assignments, reads)
+func c11Globals(res *lib.Result, tier string, root *lib.Rng) error {
+	n := 20
+	if tier == "thorough" {
+		n = 1000
+	}
+	for wi := 0; wi < n; wi++ {
+		r := root.Fork(uint64(6100000 + wi))
+		files, ng := genGlobalWorld(r)
+		dir := lib.ScratchDir(fmt.Sprintf("c11g%d", wi))
+		if err := lib.WriteWorkspace(dir, files); err != nil {
+			return err
+		}
+		sess, err := lib.StartSession(dir, lib.AllChecksOptions())
+		if err != nil {
+			os.RemoveAll(dir)
+			return err
+		}
+		sess.DidOpen("a.lua", files["a.lua"])
+		sess.DidOpen("b.lua", files["b.lua"])
+		sess.Sync()
+		all := append(identTokens("a.lua", files["a.lua"]), identTokens("b.lua", files["b.lua"])...)
+		world := "-- a.lua\n" + files["a.lua"] + "-- b.lua\n" + files["b.lua"]
+		for g := 0; g < ng; g++ {
+			name := fmt.Sprintf("gv%d", g)
+			var want []string
+			for _, p := range all {
+				if p.name == name {
+					want = append(want, fmt.Sprintf("%s:%d:%d-%d", p.file, p.line, p.col, p.col+len(name)))
+				}
+			}
+			sort.Strings(want)
+			for _, p := range all {
+				if p.name != name {
+					continue
+				}
+				caseText := fmt.Sprintf("rename at %s %d:%d (%s -> zz%d) in\n%s", p.file, p.line, p.col, name, g, world)
+				lib.Breadcrumb("C11 " + caseText)
+				ch, err := sess.Rename(p.file, p.line, p.col, fmt.Sprintf("zz%d", g))
+				if err != nil {
+					res.AddViolation("crash-or-timeout", err.Error(), caseText, false)
+					continue
+				}
+				var got []string
+				for uri, es := range ch {
+					for _, e := range es {
+						got = append(got, fmt.Sprintf("%s:%d:%d-%d", sess.Rel(uri), e.Range.Start.Line, e.Range.Start.Character, e.Range.End.Character))
+					}
+				}
+				sort.Strings(got)
+				res.Count(fmt.Sprintf("g%d/%s/%s:%d:%d", wi, name, p.file, p.line, p.col), len(want) >= 3)
+				res.Dist("global-family")
+				if strings.Join(got, " ") != strings.Join(want, " ") {
+					res.AddViolation("impl-vs-spec", fmt.Sprintf("rename of the global %s edits [%s], its occurrences are [%s]", name, strings.Join(got, " "), strings.Join(want, " ")), caseText, false)
+				}
+			}
+		}
+		sess.Close()
+		os.RemoveAll(dir)
+	}
 	return nil
 }
